@@ -40,7 +40,9 @@ class BoolOperation(object):
             if self.done:
                 return
 
-            del self.fs[f]
+            # Not "del": the same future may have been passed more than once,
+            # in which case this callback runs once per occurrence.
+            self.fs.pop(f, None)
 
             (set_result, set_exception, cancel_futures) = self.get_state_update(f)
 
